@@ -118,7 +118,7 @@ def run(c):
     if not os.path.exists(os.path.join(BIN, "rtmw")):
         return
     rc, so, se = sh([os.path.join(BIN, "rtmw"), "gen", "-seed", str(c.seed), "-tier", c.tier])
-    ops = so.splitlines()
+    ops = c.corpus() + so.splitlines()
     impl_cmd = [os.path.join(BIN, "rtmw"), "run"]
     if ok_model:
         impl, model, dis = c.correspondence("middlewares", ops, impl_cmd, [os.path.join(LEAN, ".lake/build/bin/drv_mw")])
